@@ -663,6 +663,10 @@ func (env *CEnv) call(n *Node) cval {
 			}
 		}
 		cfail("closure %s has no free variable %s", cv.Fn.Name(), n.Kids[1].S)
+	case "implements":
+		// implements(x, "pkg.Iface"): the dynamic-type predicate the executor uses for x.(pkg.Iface)
+		x := env.term(n.Kids[0])
+		return cval{V: App("is!"+n.Kids[1].S, SBool, x)}
 	case "form":
 		r := env.eval(n.Kids[0])
 		return cval{V: App("form_value", SStr, reqBase(env.ex, env.scratchState(), r.V), env.term(n.Kids[1]))}
